@@ -12,7 +12,7 @@ import random
 
 import numpy as np
 
-from .. import tlc, gen
+from .. import tlc, gen, realdata
 from ..common import Evidence, Reporter, import_mir_eval
 from ..relations import RelLog, call
 
@@ -116,6 +116,37 @@ def run(tier, seed):
                     {"ref": [x.tolist() for x in hri], "est": [x.tolist() for x in hei], "kw": str(kw)})
         log.add("swap", "hierarchy.lmeasure", call(h.lmeasure, hri, hrl, hei, hel, frame_size=0.25), call(h.lmeasure, hei, hel, hri, hrl, frame_size=0.25),
                 {"ref": [x.tolist() for x in hri], "ref_labels": hrl, "est": [x.tolist() for x in hei], "est_labels": hel})
+    # the repository's own annotation fixtures in both roles (real-world sizes)
+    lim = None if thorough else 3
+    n_real = 0
+    for nm, (a, b) in realdata.pairs(me, "onset", lim):
+        n_real += 1
+        log.add("swap", "onset.f_measure", call(me.onset.f_measure, a, b), call(me.onset.f_measure, b, a), {"fixture": "onset/" + nm})
+    for nm, (a, b) in realdata.pairs(me, "beat", lim):
+        n_real += 1
+        log.add("swap", "beat.f_measure", call(me.beat.f_measure, a, b), call(me.beat.f_measure, b, a), {"fixture": "beat/" + nm})
+    for nm, (ri, rp, ei, ep) in realdata.pairs(me, "transcription", lim):
+        n_real += 1
+        log.add("swap", "transcription.onset_precision_recall_f1", call(tr.onset_precision_recall_f1, ri, ei), call(tr.onset_precision_recall_f1, ei, ri),
+                {"fixture": "transcription/" + nm})
+        f3 = lambda *a_, **k_: tr.precision_recall_f1_overlap(*a_, **k_)[:3]  # noqa
+        log.add("swap", "transcription.precision_recall_f1_overlap[no_offset]", call(f3, ri, rp, ei, ep, offset_ratio=None),
+                call(f3, ei, ep, ri, rp, offset_ratio=None), {"fixture": "transcription/" + nm})
+    for nm, (pr, pe) in realdata.pairs(me, "pattern", lim):
+        n_real += 1
+        for name, kw in (("establishment_FPR", {}), ("occurrence_FPR", {"thres": 0.5}), ("occurrence_FPR", {}), ("three_layer_FPR", {})):
+            fn = getattr(p, name)
+            log.add("swap", "pattern." + name, call(fn, pr, pe, **kw), call(fn, pe, pr, **kw), {"fixture": "pattern/" + nm, "kw": kw})
+    for nm, (ri, rl, ei, el) in realdata.pairs(me, "segment", lim):
+        n_real += 1
+        ri, rl = me.util.adjust_intervals(ri, labels=list(rl), t_min=0.0)
+        ei, el = me.util.adjust_intervals(ei, labels=list(el), t_min=0.0, t_max=ri.max())
+        log.add("swap", "segment.detection", call(s.detection, ri, ei), call(s.detection, ei, ri), {"fixture": "segment/" + nm})
+        log.add("swap", "segment.deviation", call(s.deviation, ri, ei), call(s.deviation, ei, ri), {"fixture": "segment/" + nm})
+        for name in ("pairwise", "rand_index", "ari", "mutual_information", "nce", "vmeasure"):
+            fn = getattr(s, name)
+            log.add("swap", "segment." + name, call(fn, ri, rl, ei, el), call(fn, ei, el, ri, rl), {"fixture": "segment/" + nm})
+    ev.cov["repository_fixture_pairs_swapped"] = n_real
     bad, st = log.judge()
     ev.tlc("Trace_Rel", st, "SwapSpec verdicts on recorded outcome pairs")
     ev.cov["traces_validated_against_impl"] = len(log.events)
